@@ -54,6 +54,8 @@ def observe_conn(cd):
             c.update(xcte1=pos1, xcte2=pos2)
         if ass.get_size() != size or p1.row_start != off1 or p2.row_start != off2:
             raise AssertionError("assembly layout differs from the specification's placement")
+        if cd.get("prek0nf"):
+            ass.calc_k0(conn=[c], silent=True, finalize=False)      # an un-finalised global stiffness was asked for before
         K = ass.get_k0_conn([c]).toarray()
     else:
         modname, fn = KERNELS[kind]
@@ -146,6 +148,9 @@ def run(tier, seed, build):
     cds = [v[1] for v in printed_values(mc.out, "CONN")]
     nrand = 24 if tier == "quick" else 400
     cds += [random_cd(rng) for _ in range(nrand)]
+    for k, cd in enumerate(cds):
+        if cd["auto"] and k % 2 == 0:
+            cd["prek0nf"] = True
     studies = []
     for k, cd in enumerate(list(cds)):
         if k % (6 if tier == "quick" else 3) == 1:
